@@ -39,6 +39,33 @@ CHECKS = {
         design="2/C04",
         note=TRUSTED + " Leniencies excluded from Sound are listed in DESIGN.md (bare generics, fixed<-variadic tuple, NewType<-supertype).",
     ),
+    "C05": dict(
+        technique="TLA+ state machine Binder.tla (preprocess_args + Signature.bind_arguments, one action per branch) checked by TLC "
+        "against CPythonBind.tla (CPython's binding rules); TLC-enumerated/simulated (signature, call) cases replayed through the "
+        "real binder, the real visitor and really executed under CPython; observations adjudicated by TLC (BinderTrace.tla), which "
+        "first validates the oracle model against the real call outcomes",
+        text="Model checking: TLC proves verdict <=> CPython binding for every signature of <=3 (quick) / <=4 and <=5 (thorough) "
+        "parameters x call shapes incl. */** literals, and accept => exists expansion / reject => no non-empty expansion for "
+        "list[int]/tuple[int,...]/dict[str,int] star arguments, outside two named deviation classes; 6 parameters by simulation; "
+        "the real code is bound by replay (exhaustive at the emit bound in thorough) with per-parameter positions and error "
+        "branch compared (drift).",
+        design="2/C05",
+        note=TRUSTED + " Arguments are ints and parameters are unannotated; keywords range over parameter names + one foreign "
+        "name; the existential clause enumerates expansions up to max(4, number of parameters).",
+    ),
+    "C07": dict(
+        technique="TLA+ state machine SigCompat.tla (Signature.can_assign incl. *args/**kwargs absorption) vs behavioural inclusion "
+        "stated with the C05 oracle; pairs replayed through KnownValue(f).can_assign(KnownValue(g)) and the visitor (Literal[f] "
+        "parameter); both functions really called with every call shape and the landing parameter of each argument recorded; "
+        "adjudicated by TLC (SigCompatTrace.tla)",
+        text="Model checking: accept => every call shape (<=3 positionals, <=3 keywords) bound by the expected signature is bound "
+        "by the actual one, for all pairs <=3x2 (quick) / <=3x3 (thorough) parameters, outside one named (TLC-proved tight) "
+        "deviation class; typed variant (chain C<:B<:A, Any) checks parameter contravariance/return covariance at <=1x2 / "
+        "<=2x2; 4x4 by simulation.",
+        design="2/C07",
+        note=TRUSTED + " Expected parameters are canonically named; types are a 3-class chain; Callable[...] / protocol / override "
+        "entry points share Signature.can_assign but are not driven separately.",
+    ),
     "C09": dict(
         technique="TLA+ specs Scopes.tla (FunctionScope set/get_local/subscope/loop_scope/suppressing_subscope/combine + what the "
         "visitor issues per statement) vs CFG.tla (independent collecting semantics: strict and liberal reaching definitions), "
